@@ -28,10 +28,19 @@ type FieldCase struct {
 	SAs   []map[string]string `json:"sas"`
 }
 
+type PolicyCfg struct {
+	FC      string   `json:"fc"`
+	Subset  []string `json:"subset"`
+	LogMode string   `json:"logMode"`
+}
+
 type MatchCase struct {
 	Kind     string                     `json:"kind"` // "match"
 	Attrs    map[string]interface{}     `json:"attrs"`
 	Policies [][]map[string]interface{} `json:"policies"`
+	Cfgs     []PolicyCfg                `json:"cfgs"`    // per policy: flow-control schema name, upstream subset, log mode (hex)
+	All      []string                   `json:"all"`     // (unused by the code path driven here: endpoints are not synced)
+	Logging  string                     `json:"logging"` // spec.logging.mode
 }
 
 func implField(fc FieldCase) bool {
@@ -218,6 +227,45 @@ func runMatch(c *rig.Ctx, mc MatchCase, record bool) bool {
 	if viaCluster == -1 && clusterErr != clusters.ErrNoRouterRuleMatches.Error() {
 		return fail("judge", "c01.no-match-error", "no policy matches but the error is "+clusterErr, nil)
 	}
+	// MatchAttributes with the policies' own flow-control names, subsets and log modes
+	if len(mc.Cfgs) == len(mc.Policies) {
+		ps2 := policiesOf(mc)
+		for i := range ps2 {
+			ps2[i].FlowControlSchemaName = rig.UnHex(mc.Cfgs[i].FC)
+			ps2[i].UpstreamSubset = unhex(mc.Cfgs[i].Subset)
+			ps2[i].LogMode = proxyv1alpha1.LogMode(rig.UnHex(mc.Cfgs[i].LogMode))
+		}
+		var got struct {
+			Matched bool   `json:"matched"`
+			FC      string `json:"fc"`
+			Log     bool   `json:"log"`
+		}
+		rig.Recover(func() {
+			ci := clusters.NewEmptyClusterInfo("c", nil, nil, "", nil)
+			defer ci.Stop()
+			ci.Sync(&proxyv1alpha1.UpstreamCluster{ObjectMeta: metav1.ObjectMeta{Name: "c"},
+				Spec: proxyv1alpha1.UpstreamClusterSpec{DispatchPolicies: ps2, Logging: proxyv1alpha1.LoggingConfig{Mode: proxyv1alpha1.LogMode(rig.UnHex(mc.Logging))}}})
+			if picker, err := ci.MatchAttributes(attrs); err == nil {
+				got.Matched, got.FC, got.Log = true, rig.Hex(picker.FlowControlName()), picker.EnableLog()
+			}
+		})
+		var ma struct {
+			Matched bool   `json:"matched"`
+			Policy  int    `json:"policy"`
+			FC      string `json:"fc"`
+			Log     bool   `json:"log"`
+		}
+		if err := c.Model("C01.attrs", mc, &ma); err != nil {
+			return fail("diff", "c01.model-error", "model error "+err.Error(), nil)
+		}
+		if got.Matched != ma.Matched || got.FC != ma.FC || got.Log != ma.Log {
+			return fail("diff", "c01.match-attributes-fields", fmt.Sprintf("MatchAttributes: model matched=%v fc=%q log=%v, code matched=%v fc=%q log=%v",
+				ma.Matched, rig.UnHex(ma.FC), ma.Log, got.Matched, rig.UnHex(got.FC), got.Log), ma)
+		}
+		if ma.Matched && ma.Policy != m.SpecIdx {
+			return fail("diff", "c01.match-attributes-fields", "model's MatchAttributes policy differs from firstMatchSpec", ma)
+		}
+	}
 	if impl.Idx != m.Idx || rig.Canon(impl.Rules) != rig.Canon(m.Rules) {
 		return fail("diff", "c01.match", fmt.Sprintf("model idx %d rules %v, code idx %d rules %v", m.Idx, m.Rules, impl.Idx, impl.Rules), m)
 	}
@@ -226,7 +274,23 @@ func runMatch(c *rig.Ctx, mc MatchCase, record bool) bool {
 
 func shrinkMatch(c *rig.Ctx, mc MatchCase) MatchCase {
 	fails := func(x MatchCase) bool { return !runMatch(c, x, false) }
-	mc.Policies = rig.ShrinkList(mc.Policies, func(l [][]map[string]interface{}) bool { x := mc; x.Policies = l; return fails(x) })
+	// shrink policies together with their cfgs: index lists
+	idx := make([]int, len(mc.Policies))
+	for i := range idx {
+		idx[i] = i
+	}
+	sel := func(l []int) MatchCase {
+		x := mc
+		x.Policies, x.Cfgs = [][]map[string]interface{}{}, []PolicyCfg{}
+		for _, i := range l {
+			x.Policies = append(x.Policies, mc.Policies[i])
+			if len(mc.Cfgs) == len(mc.Policies) {
+				x.Cfgs = append(x.Cfgs, mc.Cfgs[i])
+			}
+		}
+		return x
+	}
+	mc = sel(rig.ShrinkList(idx, func(l []int) bool { return fails(sel(l)) }))
 	for i := range mc.Policies {
 		i := i
 		mc.Policies[i] = rig.ShrinkList(mc.Policies[i], func(l []map[string]interface{}) bool {
@@ -265,14 +329,18 @@ func genField(c *rig.Ctx, raw bool) FieldCase {
 
 func genMatch(c *rig.Ctx, raw bool) MatchCase {
 	r := c.Rng
-	mc := MatchCase{Kind: "match", Attrs: mg.GenAttrs(r, raw).JSON(), Policies: [][]map[string]interface{}{}}
+	mc := MatchCase{Kind: "match", Attrs: mg.GenAttrs(r, raw).JSON(), Policies: [][]map[string]interface{}{}, Cfgs: []PolicyCfg{}}
 	for i, n := 0, r.Intn(5); i < n; i++ {
 		p := []map[string]interface{}{}
 		for j, k := 0, r.Intn(4); j < k; j++ {
 			p = append(p, mg.RuleJSON(mg.Rule(r, raw)))
 		}
 		mc.Policies = append(mc.Policies, p)
+		mc.Cfgs = append(mc.Cfgs, PolicyCfg{FC: rig.Hex(rig.Pick(r, []string{"", "", "a", "system-default", "limit-1"})),
+			Subset: rig.HexList(rig.Pick(r, [][]string{{}, {}, {"e1"}, {"e1", "e2"}})), LogMode: rig.Hex(rig.Pick(r, []string{"", "on", "off", "ON", "x"}))})
 	}
+	mc.Logging = rig.Hex(rig.Pick(r, []string{"", "on", "off", "Off"}))
+	mc.All = []string{}
 	return mc
 }
 
@@ -290,6 +358,7 @@ func runAny(c *rig.Ctx, raw json.RawMessage, record bool) bool {
 }
 
 func main() {
+	rig.QuietKlog()
 	rig.Main("C01", func(c *rig.Ctx) {
 		c.SetRule("field cases: one of the 7 field matchers on a rule list (0-4 entries from a 39-token colliding universe or raw bytes; classes empty/star/positive/mixed/inverted-1/inverted-n) against request values from a 29-token universe; match cases: 0-4 policies x 0-3 rules against a request tuple, through clusters.MatchPolicies, RuleMatches and ClusterInfo.MatchAttributes. distinct = distinct canonical case; non-trivial = the rule list is not empty and not match-all (field) / at least one policy has a rule (match)")
 		if c.Replay != "" {
